@@ -35,7 +35,7 @@ var backendSpecs = []backendSpec{
 func (c *Ctx) runBackendWalk(r *Report, b backendSpec) {
 	ents := c.entries(r, b.Entries...)
 	reach := c.reach(ents...)
-	c.runWalkAll(r, "operands", b.Name, inPkgs(b.Pkg), reachFilter(reach), false, true, b.Exc)
+	c.runWalkAll(r, "operands", b.Name, inPkgs(b.Pkg), reachFilter(reach), true, true, b.Exc)
 	if len(b.Scopes) > 0 {
 		c.runResetScopes(r, b.Scopes)
 	}
@@ -44,7 +44,7 @@ func (c *Ctx) runBackendWalk(r *Report, b backendSpec) {
 func backendProp(b backendSpec, meaning string) propFunc {
 	return func(c *Ctx, r *Report) {
 		r.Clauses = append(r.Clauses,
-			"operand consumption (E3): every emitter of the "+b.Name+" backend that dispatches on IR node kinds and reads all operand handles of >=3/4 of them reads every operand handle of every kind the frontend can produce, and recurses into every nested block (an operand that is never read cannot influence the output)",
+			"operand consumption (E3): every emitter of the "+b.Name+" backend that dispatches on IR node kinds and reads all operand handles of >=3/4 of them reads every operand handle of every kind the frontend can produce, and recurses into every nested block (an operand that is never read cannot influence the output); every handle remapper of the backend (functions that rebuild an expression arena, e.g. pipeline-constant substitution) rewrites every handle field of every node kind",
 			"per-function writer state (E5): every Writer field written only while a function / entry point is being written is re-initialised in the prologue of that function's writer")
 		r.NotDecided = append(r.NotDecided, meaning)
 		c.runBackendWalk(r, b)
